@@ -22,7 +22,6 @@ Regs == 1..NREG
 InitRegs == [i \in Regs |-> Nil]
 InitOrg == [i \in Regs |-> "none"]
 
-Idx(s) == 1..Len(s)
 
 \* ------------------------------------------------------------------ C07
 JIsect(A, B, e) ==
